@@ -2,22 +2,38 @@
 malformed datagrams are harmless; callback registries run exactly what is
 registered, in order.
 
-Four parts (DESIGN.md section 5, C18):
+Parts (DESIGN.md section 5, C18):
 
 (1) responder histories  E2 (own BFS driver, systems have close()), mode 'rt'
     (RT-virtual, default schedule): real OscFunc objects, datagrams encoded by
     the strict OSC 1.0 codec, delivered through the real
     OscInterface._handle_request and dispatched by the real SystemClock
-    thread; invocation log against mc/oracles/dispatch_ref.py.
+    thread; invocation log against mc/oracles/dispatch_ref.py.  Families:
+    paths, filters, identity (shared function objects, callbacks that free /
+    disable), ports, both (source + receive port; senders on two hosts),
+    permanent (responders that persist beyond CmdPeriod).
+(1b) responders whose function raises (one dispatcher).
+(1c) filter matrix        E1, mode 'rt': ONE responder - creation route
+    (constructor, OscFunc.matching, dispatcher=, the oscfunc decorator, a
+    dispatcher object of its own) x path spelling x function arity x source
+    address x receive port x argument template (scalar, wildcard, falsy
+    value, strings, floats, user functions) x preparation (none, function
+    replaced, one_shot, disable/enable) x delivery (single messages, bundles)
+    - against every message of a product address x arguments x sender (two
+    hosts) x port.
 (2) patterns             E1, mode 'import': every pattern text of length <= L
-    over the OSC pattern alphabet x every valid address of length <= L over
-    {a,b,/}: the matcher used by responders.py against mc/oracles/oscpattern.py.
+    over a pattern alphabet x every valid address of length <= L over an
+    address alphabet, for the families of PFAMILIES: the matcher used by
+    responders.py against mc/oracles/oscpattern.py.
 (3) datagram faults      E4, mode 'rt': every truncation / int32 field value /
     type tag substitution of the base datagrams, all byte strings of length
     <= 2, each under a deterministic step budget; classification by
     mc/oracles/oscfault.py.
-(4) registries           E2, mode 'rt': CmdPeriod/StartUp/ShutDown,
-    ServerBoot/ServerQuit/ServerTree, NotificationCenter against
+(4) registries           E2, mode 'rt': CmdPeriod/StartUp/ShutDown (add with
+    positional and keyword arguments, remove, remove_all, run, do_once,
+    hard_run, defer, an action that removes another one), ServerBoot/
+    ServerQuit/ServerTree, NotificationCenter (register, register_one_shot,
+    unregister, notify, registration_exists, clear) against
     mc/oracles/registry_ref.py.
 """
 
@@ -161,14 +177,16 @@ class ResponderSys:
     """params: {'variants': [[path, matching, src, recv_port, tmpl(, shared)],
                              ...],
                 'max': n, 'msgs': [[address, args, sender, via], ...],
-                'kill': bool}
+                'kill': bool, 'permanent': bool}
     via 0 = the main interface, 1 = the second interface (PORT2).
     shared: the responder is created with the one function object that all
     `shared` responders of its dispatcher have in common (log entries of that
     function carry no responder id; they are attributed to the responders that
     still own it, in the order the reference expects them).
     kill: the menu offers ['kill', i, j, how]: responder i gets a function that
-    logs and then calls j.free() / j.disable() (at most one such responder)."""
+    logs and then calls j.free() / j.disable() (at most one such responder).
+    permanent: the menu offers ['permanent', i, bool] on live responders
+    (a permanent responder persists beyond CmdPeriod)."""
 
     def __init__(self, params, dry=False):
         self.p = params
@@ -219,6 +237,10 @@ class ResponderSys:
                     if j != i and self.ref.live(j):
                         o += [['kill', i, j, 'free'],
                               ['kill', i, j, 'disable']]
+        if self.p.get('permanent'):
+            for i, r in enumerate(self.ref.rs):
+                if self.ref.live(i):
+                    o.append(['permanent', i, not r.permanent])
         o.append(['cmdp'])
         o += [['msg', k] for k in range(len(self.p['msgs']))]
         return o
@@ -288,6 +310,8 @@ class ResponderSys:
             ref.replace_func(i)
         elif name == 'kill':
             ref.set_killer(i, op[2], op[3])
+        elif name == 'permanent':
+            ref.set_permanent(i, op[2])
         else:
             raise core.HarnessError(f'bad op {op}')
         if self.dry:
@@ -295,6 +319,9 @@ class ResponderSys:
         obj = self.rs[i]
         if obj is None:
             return []
+        if name == 'permanent':
+            return self._guard(
+                op, lambda: setattr(obj, 'permanent', bool(op[2])))[0]
         if name == 'kill':
             f = self._cb_kill(i, ref.rs[i].ver, op[2], op[3])
             return self._guard(op, lambda: setattr(obj, 'func', f))[0]
@@ -392,7 +419,12 @@ class ResponderSys:
                 if isinstance(e[0], str):
                     own = owners.get(e[0])
                     e[0] = own.pop(0) if own else 'S+'
-        self.last = ['msg', k, [[e[0], e[1]] for e in obs]]
+        # (outcome statistic: exact before matching responders - the order
+        # between the two dispatchers depends on object addresses)
+        self.last = ['msg', k, sorted(
+            ([e[0], e[1]] for e in obs),
+            key=lambda x: ref.rs[x[0]].matching
+            if isinstance(x[0], int) and x[0] < len(ref.rs) else 2)]
         if ref.last_optional:
             self.tainted = True     # resulting state not decided: not extended
         if any(e[3] for e in errors):
@@ -461,6 +493,10 @@ class ResponderSys:
                 kind = 'resp-missed-dispatch-error'
             elif shot:
                 kind = 'resp-missed-after-oneshot'
+            elif r.survived_dd:
+                kind = 'resp-missed-permanent-declared-while-disabled'
+            elif r.permanent and r.survived:
+                kind = 'resp-missed-permanent'
             else:
                 kind = 'resp-missed'
             dis.append((kind, exp_ids, obs_ids, detail))
@@ -661,31 +697,341 @@ def raise_work(job):
 
 
 # =============================================================================
+# (1c) filter matrix: one responder x every message of a product
+
+H2 = '127.0.0.2'
+C = [H2, 57200]             # sender C: the port of A on another host
+
+MX_ROUTES = ['ctor', 'matching', 'dispatcher', 'deco', 'deco-matching',
+             'own', 'own-matching']     # own: a dispatcher object of its own
+MX_PATHS = ['/a', 'a']
+MX_ARITY = ['f4', 'fvar', 'f1']
+MX_SRC = [None, A, [HOST, None], [H2, None], [H2, 57200]]
+MX_RPORT = [None, PORT2, 'main']
+MX_TMPL = [None, [], [1], [0], [None, 2], [1, 2], 1, ['x'], [0.5],
+           [{'pred': 'odd'}], [None, {'pred': 'pos'}]]
+MX_PRE = ['none', 'func', 'one_shot', 'disable-enable']
+MX_DELIVERY = ['single', 'bundle']
+# the messages every case receives
+MX_ADDR = ['/a', '/ab', '/[a-b]']
+MX_ARGS = [[], [0], [1], [2], [1, 2], [0, 2], [3, 2], ['x'], [0.5], [1, 'x']]
+MX_SENDERS = [A, B, C]
+MX_VIA = [0, 1]
+MX_SLICES = 4
+
+
+def _mx_case(route, path, arity, src, rport, tmpl, pre, delivery):
+    return {'part': 'matrix', 'route': route, 'path': path, 'arity': arity,
+            'src': src, 'rport': rport, 'tmpl': tmpl, 'pre': pre,
+            'delivery': delivery}
+
+
+def matrix_cases(tier, slice_no=0):
+    """Thorough: F1 (every source x receive port x template x preparation x
+    delivery mode, for a plain and a matching responder) and F2 (every
+    creation route x path spelling x function arity x preparation, with
+    source / port / template each absent or present).  Quick: F1 with single
+    deliveries and preparation none / func, F2 with all filters absent or
+    all present, and the seed-selected 1/MX_SLICES slice of the rest of F1."""
+    quick = tier == 'quick'
+    out, seen = [], set()
+
+    def add(c):
+        k = core.canon(c)
+        if k not in seen:
+            seen.add(k)
+            out.append(c)
+    n = 0
+    for route in ('ctor', 'matching'):
+        for src in MX_SRC:
+            for rport in MX_RPORT:
+                for tmpl in MX_TMPL:
+                    for pre in MX_PRE:
+                        for delivery in MX_DELIVERY:
+                            base = delivery == 'single' and \
+                                pre in ('none', 'func')
+                            if not quick or base or \
+                                    n % MX_SLICES == slice_no:
+                                add(_mx_case(route, '/a', 'f4', src, rport,
+                                             tmpl, pre, delivery))
+                            if not base:
+                                n += 1
+    for route in MX_ROUTES:
+        for path in MX_PATHS:
+            for arity in MX_ARITY:
+                for pre in MX_PRE:
+                    for src in (None, A):
+                        for rport in (None, PORT2):
+                            for tmpl in (None, [1]):
+                                nf = (src is not None) + (rport is not None) \
+                                    + (tmpl is not None)
+                                if quick and nf not in (0, 3):
+                                    continue
+                                add(_mx_case(route, path, arity, src, rport,
+                                             tmpl, pre, 'single'))
+    return out
+
+
+def matrix_messages():
+    """Every argument list on the responder's address; two of them on the
+    other addresses; each from every sender on every port."""
+    return [[a, args, snd, via] for snd in MX_SENDERS for via in MX_VIA
+            for a in MX_ADDR for args in MX_ARGS
+            if a == MX_ADDR[0] or args in ([1], [1, 2])]
+
+
+def run_matrix_case(case):
+    """-> (disagreements, observed firing counts (string), nontrivial)"""
+    from mc import seams, vthreading as vt
+    env = _env()
+    ex = seams.Execution()
+    S = vt.SCHED
+    rsp = env['rsp']
+    OscFunc = rsp.OscFunc
+    main_iface = env['main']._osc_interface
+    ifaces = [main_iface, env['iface2']]
+    rport = main_iface.port if case['rport'] == 'main' else case['rport']
+    matching = case['route'] in ('matching', 'dispatcher', 'deco-matching',
+                                 'own-matching')
+    ref = dispatch_ref.Model()
+    rr = ref.create(case['path'], matching, case['src'], rport, case['tmpl'])
+    log = []
+    dis = []
+    mine = []
+
+    def mk(ver):
+        if case['arity'] == 'f4':
+            def f(msg, time, addr, port):
+                log.append([ver, [msg, time, addr, port]])
+        elif case['arity'] == 'fvar':
+            def f(*args):
+                log.append([ver, list(args)])
+        else:
+            def f(msg):
+                log.append([ver, [msg]])
+        return f
+
+    def plain(entry):
+        ver, a = entry
+        out = [ver, _jsonable(a[0])]
+        if len(a) > 1:
+            out.append(a[1])
+        if len(a) > 2:
+            out.append([getattr(a[2], 'hostname', None),
+                        getattr(a[2], 'port', None)])
+        out += [_jsonable(x) for x in a[3:]]
+        return out
+    try:
+        src = case['src']
+        sid = None if src is None else env['NetAddr'](src[0], src[1])
+        tmpl = case['tmpl']
+        if isinstance(tmpl, list):
+            tmpl = [dispatch_ref.PREDS[x['pred']] if isinstance(x, dict)
+                    else x for x in tmpl]
+        f0 = mk(0)
+        route = case['route']
+        try:
+            if route == 'ctor':
+                r = OscFunc(f0, case['path'], sid, rport, arg_template=tmpl)
+            elif route == 'matching':
+                r = OscFunc.matching(f0, case['path'], sid, rport,
+                                     arg_template=tmpl)
+            elif route == 'dispatcher':
+                r = OscFunc(f0, case['path'], src_id=sid, recv_port=rport,
+                            arg_template=tmpl,
+                            dispatcher=OscFunc._default_matching_dispatcher)
+            elif route in ('own', 'own-matching'):
+                d = rsp.OscMessagePatternDispatcher() \
+                    if route == 'own-matching' else rsp.OscMessageDispatcher()
+                r = OscFunc(f0, case['path'], sid, recv_port=rport,
+                            arg_template=tmpl, dispatcher=d)
+            else:
+                kw = {}
+                if sid is not None:
+                    kw['src_id'] = sid
+                if rport is not None:
+                    kw['recv_port'] = rport
+                if tmpl is not None:
+                    kw['arg_template'] = tmpl
+                if route == 'deco-matching':
+                    r = rsp.oscfunc(case['path'], matching=True, **kw)(f0)
+                else:
+                    r = rsp.oscfunc(case['path'], **kw)(f0)
+            mine.append(r)
+            pre = case['pre']
+            if pre == 'func':
+                ref.replace_func(0)
+                r.func = mk(1)
+            elif pre == 'one_shot':
+                ref.one_shot(0)
+                r.one_shot()
+            elif pre == 'disable-enable':
+                ref.disable(0)
+                ref.enable(0)
+                r.disable()
+                r.enable()
+            S.idle()
+        except (vt.Deadlock, vt.Livelock) as e:
+            dis.append(('matrix-op-blocks', 'returns', type(e).__name__,
+                        str(e)))
+            return dis, '', False
+        except Exception as e:
+            dis.append(('matrix-op-raises', 'returns', type(e).__name__,
+                        str(e)[:200]))
+            return dis, '', False
+        S.sleep(DT, exact=True)
+        now = S.now
+        msgs = matrix_messages()
+        if case['delivery'] == 'bundle':
+            groups = []
+            for snd in MX_SENDERS:
+                for via in MX_VIA:
+                    groups.append([m for m in msgs
+                                   if m[2] == snd and m[3] == via])
+        else:
+            groups = [[m] for m in msgs]
+        counts = []
+        nfire = nrej = 0
+        for grp in groups:
+            snd, via = grp[0][2], grp[0][3]
+            iface = ifaces[via]
+            enc = [osc10.encode_message(m[0], m[1]) for m in grp]
+            data = enc[0] if case['delivery'] == 'single' \
+                else osc10.encode_bundle(1, enc)
+            exp = []
+            why = []
+            for m in grp:
+                state = rr.state
+                fired = ref.deliver(m[0], m[1], snd, iface.port)
+                if fired:
+                    nfire += 1
+                    exp.append([fired[0]['ver'], _jsonable([m[0]] + m[1]),
+                                now, [snd[0], snd[1]], iface.port])
+                    why.append(None)
+                    continue
+                if state != 'enabled':
+                    why.append('while-' + state)
+                elif not ref.path_accepts(rr, m[0]):
+                    why.append('path')
+                else:
+                    nrej += 1
+                    one = dispatch_ref.Responder(0, rr.path, matching, None,
+                                                 None, None, 0)
+                    one.src = rr.src
+                    if not ref.filters_accept(one, m[1], snd, iface.port):
+                        why.append('source')
+                        continue
+                    one.src, one.recv_port = None, rr.recv_port
+                    if not ref.filters_accept(one, m[1], snd, iface.port):
+                        why.append('port')
+                        continue
+                    why.append('template')
+            mark = len(log)
+            del env['tap'].records[:]
+            try:
+                iface._handle_request(data, (snd[0], snd[1]))
+                S.idle()
+            except (vt.Deadlock, vt.Livelock) as e:
+                dis.append(('matrix-deliver-blocks', 'returns',
+                            type(e).__name__, str(e)))
+                break
+            except BaseException as e:
+                if isinstance(e, (KeyboardInterrupt, SystemExit, vt.Abort)):
+                    raise
+                dis.append(('matrix-deliver-raises', 'returns',
+                            type(e).__name__, str(e)[:200]))
+            obs = [plain(e) for e in log[mark:]]
+            counts.append(len(obs))
+            if case['arity'] == 'f1':
+                exp = [e[:2] for e in exp]
+            if obs == exp:
+                continue
+            errors = [list(x) for x in env['tap'].records]
+            detail = (f'messages {[[m[0]] + m[1] for m in grp]} from {snd} '
+                      f'on port {iface.port}; responder {ref.key()[0]}; '
+                      f'errors logged by the library: {errors[:3]}')
+            # which message is concerned
+            left = list(obs)
+            for m, w in zip(grp, why):
+                want = _jsonable([m[0]] + m[1])
+                got = [e for e in left if e[1] == want]
+                for e in got:
+                    left.remove(e)
+                if w is None:
+                    if not got:
+                        dis.append(('matrix-missed', exp, obs, detail))
+                    elif len(got) > 1:
+                        dis.append(('matrix-fired-twice', exp, obs, detail))
+                    elif got[0] not in exp:
+                        dis.append(('matrix-stale-function'
+                                    if got[0][0] != exp[0][0]
+                                    else 'matrix-payload', exp, obs, detail))
+                elif got:
+                    dis.append((f'matrix-extra-{w}', exp, obs, detail))
+            if left:
+                dis.append(('matrix-payload', exp, obs, detail))
+            elif not any(d[3] is detail for d in dis):
+                dis.append(('matrix-bundle-order', exp, obs, detail))
+        return dis, ''.join(str(min(c, 9)) for c in counts), \
+            bool(nfire and nrej)
+    finally:
+        _restore_responders(env, mine)
+        problems = ex.finish()
+        for pr in problems:
+            dis.append(('rt-teardown-problem', [], pr, ''))
+
+
+def matrix_work(job):
+    acc = progenum.Acc(max_samples=2)
+    cases = matrix_cases(job['tier'], job['slice'])
+    for k, case in enumerate(cases):
+        if k % job['of'] != job['shard']:
+            continue
+        dis, out, nt = run_matrix_case(case)
+        for kind, exp, o, detail in dis:
+            acc.violation(kind, case, exp, o, detail)
+        acc.case(case, nt, out, steps=len(out))
+    return acc.result()
+
+
+# =============================================================================
 # (4) registries
 
-def _labelled(label, log, with_server=None):
+def _labelled(label, log, with_server=None, then=None):
+    """A registered action: logs its label, positional and keyword
+    arguments; `then` (optional) is called afterwards."""
     if with_server is None:
-        def f(*args):
-            log.append([label, _jsonable(args)])
+        def f(*args, **kw):
+            log.append([label, _jsonable(args) + [dict(kw)]])
+            if then is not None:
+                then()
     else:
-        def f(server, *args):
-            log.append([label, with_server(server), _jsonable(args)])
+        def f(server, *args, **kw):
+            log.append([label, with_server(server),
+                        _jsonable(args) + [dict(kw)]])
     f._c18 = label
     return f
 
 
 class SystemActionSys:
-    """params: {'cls': 'CmdPeriod' | 'StartUp' | 'ShutDown'}"""
+    """params: {'cls': 'CmdPeriod' | 'StartUp' | 'ShutDown'}
+    Actions are registered with positional and keyword arguments.  'r0' is
+    an action that removes 'a1' from the registry when it runs.  CmdPeriod
+    also has do_once and hard_run, StartUp also has defer."""
     ACTIONS = ['a0', 'a1', 'a2']
     ONCE = ['d0', 'd1']
+    REMOVER, TARGET = 'r0', 'a1'
+    DEFER = ['a0', 'a1']
 
     def __init__(self, params, dry=False):
         self.p = params
         self.dry = dry
-        self.ref = registry_ref.SystemActionRef()
+        self.once = params['cls'] == 'CmdPeriod'
+        self.startup = params['cls'] == 'StartUp'
+        self.ref = registry_ref.SystemActionRef(
+            self.REMOVER, self.TARGET, track_done=self.startup)
         self.last = None
         self.closed = False
-        self.once = params['cls'] == 'CmdPeriod'
         if dry:
             return
         self.env = _env()
@@ -697,19 +1043,31 @@ class SystemActionSys:
         self.saved = self.cls._actions
         self.saved_done = getattr(self.cls, 'done', None)
         self.cls.remove_all()
+        if self.startup:
+            self.cls.done = False       # as before the library has started
         self.log = []
         self.fn = {a: _labelled(a, self.log)
                    for a in self.ACTIONS + self.ONCE}
+        self.fn[self.REMOVER] = _labelled(
+            self.REMOVER, self.log,
+            then=lambda: self.cls.remove(self.fn[self.TARGET]))
 
     @staticmethod
     def _args(label):
         return [int(label[1]), label]
 
+    @staticmethod
+    def _kw(label):
+        return {'k': label + 'k'}
+
     def ops(self):
-        o = [['add', a] for a in self.ACTIONS]
-        o += [['remove', a] for a in self.ACTIONS]
+        o = [['add', a] for a in self.ACTIONS + [self.REMOVER]]
+        o += [['remove', a] for a in self.ACTIONS + [self.REMOVER]]
         if self.once:
             o += [['do_once', d] for d in self.ONCE]
+            o += [['hard_run']]
+        if self.startup:
+            o += [['defer', a] for a in self.DEFER]
         o += [['run'], ['remove_all']]
         return o
 
@@ -725,8 +1083,14 @@ class SystemActionSys:
             ref.do_once(op[1], self._args(op[1]))
         elif name == 'remove_all':
             ref.remove_all()
-        elif name == 'run':
+        elif name in ('run', 'hard_run'):
             groups = ref.run()
+        elif name == 'defer':
+            if ref.defer(op[1], self._args(op[1])):
+                # evaluated at once, exactly once, not registered
+                groups = [[{'key': ('a', op[1]), 'first': 0, 'last': 0,
+                            'payload': self._args(op[1])}]]
+                ref.optional = []
         else:
             raise core.HarnessError(f'bad op {op}')
         if self.dry:
@@ -734,8 +1098,9 @@ class SystemActionSys:
         cls = self.cls
         del self.log[:]
         try:
-            if name in ('add', 'do_once'):
-                getattr(cls, name)(self.fn[op[1]], *self._args(op[1]))
+            if name in ('add', 'do_once', 'defer'):
+                getattr(cls, name)(self.fn[op[1]], *self._args(op[1]),
+                                   **self._kw(op[1]))
             elif name == 'remove':
                 cls.remove(self.fn[op[1]])
             else:
@@ -748,22 +1113,32 @@ class SystemActionSys:
                      f'{op}: {e}')]
         obs = [list(x) for x in self.log]
         dis = []
-        if name != 'run':
+        if groups is None:
             if obs:
                 dis.append(('sysact-runs-outside-run', [], obs, str(op)))
             return dis
         self.last = obs
         lab = [[dict(e, key=e['key'][-1]) for e in g] for g in groups]
-        res = registry_ref.check_run(lab, [x[0] for x in obs])
+        seen = [x[0] for x in obs]
+        res = registry_ref.check_run(lab, seen)
+        if res is not None and ref.optional:
+            # the action removed during this run may also have stayed away
+            opt = {k[-1] for k in ref.optional}
+            res2 = registry_ref.check_run(
+                [[e for e in g if e['key'] not in opt] for g in lab], seen)
+            if res2 is None:
+                res = None
         detail = f'registered (reference): {ref.key()} before the run: ' \
-                 f'{[[e["key"], e["first"], e["last"]] for e in lab[0]]}'
+                 f'{[[e["key"], e["first"], e["last"]] for e in lab[0]]}; ' \
+                 f'may stay away: {ref.optional}'
         if res is not None:
-            dis.append((f'sysact-run-{res[0]}',
-                        [e['key'] for e in lab[0]], [x[0] for x in obs],
-                        detail))
+            kind = f'sysact-{name}-{res[0]}' if name != 'run' \
+                else f'sysact-run-{res[0]}'
+            dis.append((kind, [e['key'] for e in lab[0]], seen, detail))
         for label, args in obs:
-            if args != self._args(label):
-                dis.append(('sysact-args', self._args(label), args, detail))
+            want = self._args(label) + [self._kw(label)]
+            if args != want:
+                dis.append(('sysact-args', want, args, detail))
         return dis
 
     def _implkey(self):
@@ -773,6 +1148,8 @@ class SystemActionSys:
             if lab is None and args and hasattr(args[0], '_c18'):
                 lab = 'once:' + args[0]._c18
             out.append(lab)
+        if self.startup:
+            out.append(['done', bool(self.cls.done)])
         return out
 
     def key(self):
@@ -824,11 +1201,15 @@ class ServerActionSys:
     def _args(label):
         return [int(label[1])]
 
+    @staticmethod
+    def _kw(label):
+        return {'k': label + 'k'}
+
     def ops(self):
         o = [['add', k, a] for k in self.KEYS for a in self.ACTIONS]
         o += [['remove', k, a] for k in self.KEYS for a in self.ACTIONS]
         o += [['remove_server', k] for k in self.KEYS]
-        o += [['run', 's'], ['run', 's2']]
+        o += [['run', 's'], ['run', 's2'], ['remove_all']]
         return o
 
     def apply(self, op):
@@ -841,6 +1222,8 @@ class ServerActionSys:
             ref.remove(op[1], op[2])
         elif name == 'remove_server':
             ref.remove_server(op[1])
+        elif name == 'remove_all':
+            ref.remove_all()
         elif name == 'run':
             groups = ref.run(op[1])
         else:
@@ -851,11 +1234,14 @@ class ServerActionSys:
         del self.log[:]
         try:
             if name == 'add':
-                cls.add(self.keys[op[1]], self.fn[op[2]], *self._args(op[2]))
+                cls.add(self.keys[op[1]], self.fn[op[2]], *self._args(op[2]),
+                        **self._kw(op[2]))
             elif name == 'remove':
                 cls.remove(self.keys[op[1]], self.fn[op[2]])
             elif name == 'remove_server':
                 cls.remove_server(self.keys[op[1]])
+            elif name == 'remove_all':
+                cls.remove_all()
             else:
                 cls.run(self.keys[op[1]])
         except Exception as e:
@@ -875,8 +1261,9 @@ class ServerActionSys:
                         [[e['key'] for e in g] for g in groups],
                         [x[0] for x in obs], detail))
         for label, server, args in obs:
-            if server != op[1] or args != self._args(label):
-                dis.append(('srvact-args', [op[1], self._args(label)],
+            want = self._args(label) + [self._kw(label)]
+            if server != op[1] or args != want:
+                dis.append(('srvact-args', [op[1], want],
                             [server, args], detail))
         return dis
 
@@ -922,6 +1309,8 @@ class NotificationSys:
     UNREG = [['o0', 'm', 'l0'], ['o0', 'm', 'l1'], ['o0', 'n', 'l0'],
              ['o1', 'm', 'l0'], ['o0', 'm', None], ['o0', None, None]]
     NOTIFY = [['o0', 'm'], ['o0', 'n'], ['o1', 'm']]
+    ONESHOT = [['o0', 'm', 'l0', 'f0'], ['o0', 'm', 'l1', 'f1']]
+    EXISTS = [['o0', 'm', 'l0'], ['o0', 'm', 'l1'], ['o1', 'm', 'l0']]
 
     def __init__(self, params, dry=False):
         self.p = params
@@ -933,6 +1322,7 @@ class NotificationSys:
             return
         from sc3.base.model import NotificationCenter
         self.nc = NotificationCenter
+        self.saved = NotificationCenter._registrations  # clear() rebinds it
         self.objs = {n: _Obj(n) for n in ('o0', 'o1', 'l0', 'l1')}
         self.log = []
         log = self.log
@@ -947,21 +1337,30 @@ class NotificationSys:
 
     def ops(self):
         return [['register'] + r for r in self.REG] + \
+               [['register_one_shot'] + r for r in self.ONESHOT] + \
                [['unregister'] + u for u in self.UNREG] + \
-               [['notify'] + n for n in self.NOTIFY]
+               [['notify'] + n for n in self.NOTIFY] + \
+               [['exists'] + e for e in self.EXISTS] + [['clear']]
 
     def apply(self, op):
         name = op[0]
         ref = self.ref
         groups = None
         existed = None
+        answer = None
         if name == 'register':
             ref.register(*op[1:])
+        elif name == 'register_one_shot':
+            ref.register(*op[1:], once=True)
         elif name == 'unregister':
             existed = ref.exists(*op[1:])
             ref.unregister(*op[1:])
         elif name == 'notify':
             groups = ref.notify(op[1], op[2])
+        elif name == 'exists':
+            answer = ref.exists(*op[1:])
+        elif name == 'clear':
+            ref.clear()
         else:
             raise core.HarnessError(f'bad op {op}')
         if self.dry:
@@ -969,9 +1368,15 @@ class NotificationSys:
         nc, ob = self.nc, self.objs
         del self.log[:]
         raised = None
+        got = None
         try:
-            if name == 'register':
-                nc.register(ob[op[1]], op[2], ob[op[3]], self.fn[op[4]])
+            if name in ('register', 'register_one_shot'):
+                getattr(nc, name)(ob[op[1]], op[2], ob[op[3]],
+                                  self.fn[op[4]])
+            elif name == 'exists':
+                got = nc.registration_exists(ob[op[1]], op[2], ob[op[3]])
+            elif name == 'clear':
+                nc.clear()
             elif name == 'unregister':
                 nc.unregister(ob[op[1]], op[2],
                               None if op[3] is None else ob[op[3]])
@@ -988,6 +1393,9 @@ class NotificationSys:
                     isinstance(raised, KeyError)):
                 dis.append(('notif-op-raises', 'returns',
                             type(raised).__name__, f'{op}: {raised}'))
+        if name == 'exists' and raised is None and got is not answer:
+            dis.append(('notif-registration-exists', answer, got,
+                        f'{op}; registered (reference): {ref.key()}'))
         if name != 'notify':
             if obs:
                 dis.append(('notif-runs-outside-notify', [], obs, str(op)))
@@ -1009,11 +1417,20 @@ class NotificationSys:
 
     def _implkey(self):
         out = []
+
+        def lab(fn):
+            if hasattr(fn, '_c18'):
+                return fn._c18
+            cells = getattr(fn, '__closure__', None) or ()
+            for c in cells:         # the wrapper of register_one_shot
+                if hasattr(c.cell_contents, '_c18'):
+                    return 'once:' + c.cell_contents._c18
+            return None
         for o, msgs in self.nc._registrations.items():
             if not isinstance(o, _Obj):
                 continue
             for m, ls in msgs.items():
-                ent = [[repr(k), getattr(fn, '_c18', None)]
+                ent = [[repr(k), lab(fn)]
                        for k, fn in ls.items()]
                 if ent:
                     out.append([repr(o), m, ent])
@@ -1032,11 +1449,13 @@ class NotificationSys:
         if self.dry or self.closed:
             return []
         self.closed = True
-        for o in self.objs.values():
-            try:
-                del self.nc._registrations[o]
-            except KeyError:
-                pass
+        for reg in (self.nc._registrations, self.saved):
+            for o in self.objs.values():
+                try:
+                    del reg[o]
+                except KeyError:
+                    pass
+        self.nc._registrations = self.saved
         return []
 
 
@@ -1191,6 +1610,27 @@ def run_bfs(ctx, system, params, depth, label, batch=8):
 PALPHA = 'ab/?*[]!-{},'
 AALPHA = 'ab/'
 
+# Pattern families: (pattern alphabet, address alphabet, (plen, alen) quick,
+# (plen, alen) thorough, extra).  'core' is the OSC pattern alphabet over the
+# names {a, b}.  The other families put characters into the pattern and into
+# the addresses that 'core' cannot tell apart:
+#   range    ranges with an interior and an outside character ([a-c] against
+#            b and d), '-' and '!' as ordinary name characters;
+#   literal  characters that are ordinary in OSC ("any other character matches
+#            only the same character") but special in regular expressions;
+#   setlit   such characters inside brackets ('^' does not negate in OSC);
+#   altlit   such characters inside braces.
+# extra: the quick tier adds a seed-selected 1/8 slice of the patterns of
+# length plen + 1.
+PFAMILIES = {
+    'core': (PALPHA, AALPHA, (5, 5), (6, 6), False),
+    'range': ('ac/[]-!', 'abcd-!/', (6, 3), (7, 4), True),
+    'literal': ('a/.+^$|()\\*', 'a.+^$|()\\/', (4, 3), (5, 4), False),
+    'setlit': ('ab/[]!^\\.', 'ab^\\./', (5, 3), (6, 4), False),
+    'altlit': ('ab/{},.|(', 'ab.|(/', (5, 3), (6, 4), False),
+}
+PSLICES = 8
+
 
 def _matcher():
     try:
@@ -1201,21 +1641,21 @@ def _matcher():
         return osc_rematch_pattern
 
 
-def addresses(maxlen):
+def addresses(maxlen, aalpha=AALPHA):
     out = []
     for n in range(1, maxlen + 1):
-        for t in itertools.product(AALPHA, repeat=n - 1):
+        for t in itertools.product(aalpha, repeat=n - 1):
             a = '/' + ''.join(t)
             if oscpattern.valid_address(a):
                 out.append(a)
     return out
 
 
-def patterns(maxlen):
-    """Every text of length <= maxlen over PALPHA that starts with '/', in
-    shortlex order."""
-    for n in range(1, maxlen + 1):
-        for t in itertools.product(PALPHA, repeat=n - 1):
+def patterns(maxlen, palpha=PALPHA, minlen=1):
+    """Every text of length minlen..maxlen over palpha that starts with '/',
+    in shortlex order."""
+    for n in range(minlen, maxlen + 1):
+        for t in itertools.product(palpha, repeat=n - 1):
             yield '/' + ''.join(t)
 
 
@@ -1262,15 +1702,30 @@ def _quiet():
 
 
 def pattern_work(job):
+    """job: {'fam', 'plen', 'alen', 'shard', 'of'} and optionally 'slice' /
+    'slice_of': additionally the patterns of length plen + 1 whose index
+    (within that length) is in the slice."""
     _quiet()
     acc = progenum.Acc()
     lib = _matcher()
-    addrs = addresses(job['alen'])
+    palpha, aalpha = PFAMILIES[job.get('fam', 'core')][:2]
+    addrs = addresses(job['alen'], aalpha)
     pairs = 0
     best = {}
-    for idx, p in enumerate(patterns(job['plen'])):
-        if idx % job['of'] != job['shard']:
-            continue
+
+    def todo():
+        idx = 0
+        for p in patterns(job['plen'], palpha):
+            if idx % job['of'] == job['shard']:
+                yield p
+            idx += 1
+        if job.get('slice') is not None:
+            for k, p in enumerate(patterns(job['plen'] + 1, palpha,
+                                           job['plen'] + 1)):
+                if k % job['slice_of'] == job['slice'] and \
+                        (k // job['slice_of']) % job['of'] == job['shard']:
+                    yield p
+    for p in todo():
         cls, out, dis = check_pattern(p, addrs, lib)
         acc.count('patterns_' + cls)
         if cls == 'ambiguous':
@@ -1551,6 +2006,12 @@ def replay(job):
                 'deliveries': obs,
                 'disagreements': [[d[0], repr(d[1]), repr(d[2])]
                                   for d in dis]}
+    if part == 'matrix':
+        dis, out, nt = run_matrix_case(case)
+        return {'violates': any(d[0] == job['kind'] for d in dis),
+                'fired': out,
+                'disagreements': [[d[0], repr(d[1]), repr(d[2])]
+                                  for d in dis]}
     if part == 'fault':
         cl, obs, dis, steps = run_fault_case(case)
         return {'violates': any(d[0] == job['kind'] for d in dis),
@@ -1571,8 +2032,9 @@ def replay(job):
 # =============================================================================
 # known findings predicates
 
-# (the repair of both open findings is proposed in
-# /verif/fixes/C18-dispatchers-keep-proxies-in-active.patch)
+# (shared_function_object / removed_by_callback_exact: repaired in the
+# library, see known_findings.json; permanent_set_while_disabled: repair
+# proposed in /verif/fixes/C18-permanent-set-while-disabled.patch)
 
 def _variant_of(v, rid):
     """variant (list) with which responder `rid` of the history was made"""
@@ -1605,8 +2067,33 @@ def removed_by_callback_exact(v):
     return False
 
 
+def permanent_set_while_disabled(v):
+    """a responder was declared permanent while it was disabled, enabled
+    again, and CmdPeriod ran before the message that it misses"""
+    if v['case'].get('system') != 'resp':
+        return False
+    m = ResponderSys(v['case']['params'], dry=True)
+    armed = set()       # registered in CmdPeriod although permanent
+    hit = set()
+    for op in v['case']['history']:
+        if op[0] == 'permanent' and op[2] and \
+                m.ref.rs[op[1]].state == 'disabled':
+            armed.add(op[1])
+        elif op[0] == 'permanent' and not op[2]:
+            armed.discard(op[1])
+        elif op[0] == 'cmdp':
+            hit |= {i for i in armed if m.ref.rs[i].permanent}
+        m.apply(op)
+    exp = v.get('expected')
+    obs = v.get('observed')
+    missing = set(exp or []) - set(obs or []) \
+        if isinstance(exp, list) and isinstance(obs, list) else set()
+    return bool(missing) and missing <= hit
+
+
 PREDICATES = {f.__name__: f for f in (shared_function_object,
-                                      removed_by_callback_exact)}
+                                      removed_by_callback_exact,
+                                      permanent_set_while_disabled)}
 
 
 # =============================================================================
@@ -1630,7 +2117,7 @@ RESP_PARAMS = {
                      ['/a', True, A, None, [1]]],
         'max': 3,
         'msgs': [['/a', [1], A, 0], ['/a', [1], B, 0], ['/a', [2], A, 0],
-                 ['/a', [], A, 0]]},
+                 ['/a', [], A, 0], ['/a', [1], C, 0]]},
     # identity: responders that share one function object, and a function
     # that frees / disables another responder while a message is dispatched
     'identity': {
@@ -1657,8 +2144,17 @@ RESP_PARAMS = {
                      ['/a', False, [HOST, None], None, None]],
         'max': 3,
         'msgs': [['/a', [1], A, 0], ['/a', [1], A, 1], ['/a', [1], B, 1],
-                 ['/a', [2], B, 0]]},
+                 ['/a', [2], B, 0], ['/a', [1], C, 1]]},
+    # permanent: responders that persist beyond CmdPeriod
+    'permanent': {
+        'variants': [['/a', False, None, None, None],
+                     ['/a', True, None, None, None]],
+        'max': 2, 'permanent': True,
+        'msgs': [['/a', [1], A, 0]]},
 }
+
+
+RESP_DEPTH = {'permanent': (6, 7)}       # (quick, thorough); default (4, 6)
 
 
 def _timed(ctx, label, t0):
@@ -1679,12 +2175,19 @@ def main(ctx):
         'dispatcher/registry contents of the library); non-trivial = some '
         'responder or registered action changed life-cycle state at least '
         'twice (creation/registration counts as the first change). '
-        'patterns (E1): every text over the pattern alphabet up to the '
-        'length bound x every valid address; one evaluation = one pattern '
+        'patterns (E1): every text over the pattern alphabet of each family '
+        '(core; range: interior/outside characters of ranges, literal - and '
+        '!; literal/setlit/altlit: characters that are special in regular '
+        'expressions but ordinary in OSC, outside and inside brackets and '
+        'braces) up to the length bound x every valid address; one '
+        'evaluation = one pattern '
         'against all addresses; non-trivial = well-formed and contains one of '
         '? * [ {. faults (E4): every single fault of the menu on each base '
         'datagram plus all short byte strings; non-trivial = a faulted '
-        'datagram of more than 2 bytes.')
+        'datagram of more than 2 bytes. filter matrix (E1): one evaluation '
+        '= one responder configuration against all messages of the product; '
+        'non-trivial = the reference demands that it fires for some message '
+        'and that one of its filters rejects another message on its path.')
     ctx.assumptions += [
         'oracles written from the OSC 1.0 specification and the property '
         'statement: mc/oracles/oscpattern.py (part-wise, whole-address '
@@ -1695,6 +2198,13 @@ def main(ctx):
         'order is demanded only between responders of one dispatcher / '
         'actions of one registry whose creation and latest registration '
         'ranks agree; exact-vs-matching order is a don\'t-care',
+        'a permanent responder persists beyond CmdPeriod (documented), '
+        'whether it was enabled or disabled when declared permanent; an '
+        'action removed from a registry by another action during a run may '
+        'or may not run in that run unless it is demanded to run first; '
+        'StartUp.defer evaluates at once after StartUp.run, registers '
+        'before; user functions with fewer than four parameters must still '
+        'be invoked (spare arguments are documented to be discarded)',
         'ambiguous pattern texts and lenient datagram faults (see the '
         'oracle docstrings) are don\'t-cares apart from: no exception, no '
         'hang, next datagram still delivered',
@@ -1702,14 +2212,26 @@ def main(ctx):
         '(PY_START, PY_RESUME, JUMP, BRANCH)']
     of = 64
     # (2) patterns first: cheapest, own pool
-    plen, alen = (5, 5) if quick else (6, 6)
     ctx.extra['pattern_alphabet'] = PALPHA
-    ctx.extra['addresses'] = len(addresses(alen))
-    progenum.run(ctx, MODNAME, 'pattern_work',
-                 [{'shard': i, 'of': of, 'plen': plen, 'alen': alen}
-                  for i in range(of)], mode='import',
-                 bound=f'patterns: length <= {plen} x valid addresses of '
-                       f'length <= {alen}')
+    ctx.extra['pattern_families'] = {}
+    for fam in sorted(PFAMILIES):
+        palpha, aalpha, q, t, extra = PFAMILIES[fam]
+        plen, alen = q if quick else t
+        ctx.extra['pattern_families'][fam] = {
+            'pattern_alphabet': palpha, 'address_alphabet': aalpha,
+            'addresses': len(addresses(alen, aalpha))}
+        jobs = [{'fam': fam, 'shard': i, 'of': of, 'plen': plen,
+                 'alen': alen} for i in range(of)]
+        label = (f'patterns/{fam}: length <= {plen} over {palpha!r} x valid '
+                 f'addresses of length <= {alen} over {aalpha!r}')
+        if extra and quick:
+            for j in jobs:
+                j['slice_of'] = PSLICES
+                j['slice'] = core.pick_slice(ctx.seed, PSLICES)
+            label += f' (+ 1/{PSLICES} slice of length {plen + 1})'
+        progenum.run(ctx, MODNAME, 'pattern_work', jobs, mode='import',
+                     bound=label)
+    ctx.extra['addresses'] = ctx.extra['pattern_families']['core']['addresses']
     ctx.close()
     t0 = _timed(ctx, 'patterns', t0)
     # (3) faults
@@ -1726,8 +2248,10 @@ def main(ctx):
     ctx.extra['max_steps_within_budget'] = max(ms) if ms else 0
     t0 = _timed(ctx, 'faults', t0)
     # (1) responder histories
-    depth = 4 if quick else 6
     for name in sorted(RESP_PARAMS):
+        # (the small 'permanent' family needs new, permanent, disable,
+        # enable, cmdp, msg)
+        depth = RESP_DEPTH.get(name, (4, 6))[0 if quick else 1]
         run_bfs(ctx, 'resp', RESP_PARAMS[name], depth,
                 f'responders/{name}: depth {depth}')
     progenum.run(ctx, MODNAME, 'raise_work',
@@ -1735,6 +2259,21 @@ def main(ctx):
                  bound='responders whose function raises: all layouts of <=3 '
                        'responders over plain/raiser/oneshot/oneshot-raiser, '
                        'both dispatchers, 3 deliveries')
+    mxs = core.pick_slice(ctx.seed, MX_SLICES)
+    ctx.extra['matrix_messages_per_case'] = len(matrix_messages())
+    progenum.run(ctx, MODNAME, 'matrix_work',
+                 [{'shard': i, 'of': of, 'tier': ctx.tier, 'slice': mxs}
+                  for i in range(of)], mode='rt',
+                 bound='filter matrix: one responder (creation route x path '
+                       'spelling x function arity x source x receive port x '
+                       'argument template x preparation x delivery mode) '
+                       f'against {len(matrix_messages())} messages '
+                       '(address x arguments x sender x port): ' +
+                       (f'{len(matrix_cases("quick", mxs))} cases (F1 single '
+                        'with preparation none/func, F2 corners, '
+                        f'1/{MX_SLICES} slice of the rest of F1)'
+                        if quick else
+                        f'{len(matrix_cases("thorough"))} cases (F1, F2)'))
     t0 = _timed(ctx, 'responders', t0)
     # (4) registries
     d = 5 if quick else 6
